@@ -51,6 +51,21 @@ def run(res):
         body = bytes(r.randrange(256) for _ in range(r.choice([0, 1, 3, 5, 21, 24, 30, 60])))
         for pre in (b"\x19\x08\x09", b"\x00\x00\x00\x01\x19", b"\x7c\x01\x19\x08\x09", b""):
             cases.append((r.choice(["rpu", "nal"]), pre + body + r.choice([b"", b"\x80", b"\x00" * 25])))
+    # every number of significant bytes 0..9 in front of a zero tail, behind every prefix and in an EMDF container
+    for k in range(0, 10):
+        for _ in range(3):
+            sig = bytes([0x19, 0x08, 0x09][:k]) + bytes(r.randrange(1, 256) for _ in range(max(0, k - 3)))
+            if k >= 4 and r.random() < 0.7:
+                sig = sig[:-1] + b"\x80"
+            for pre in (b"", b"\x00\x00\x00\x01", b"\x7c\x01", b"\x00\x00\x01", b"\x01"):
+                cases.append((r.choice(["rpu", "nal"]), pre + sig + b"\x00" * r.choice([20, 25, 40])))
+        for _ in range(2):
+            # AV1: header + emdf container announcing k payload bytes
+            body = bytes(r.randrange(1, 256) for _ in range(max(0, k - 1))) + (b"\x80" if k else b"")
+            bits = "00" + "110" + "11111" + "00110" + "1" + "00001" + "0" + "0000" + "1" + format(k, "08b") + "0" + "".join(format(x, "08b") for x in body)
+            bits += "0" * (-len(bits) % 8)
+            cont = bytes(int(bits[j : j + 8], 2) for j in range(0, len(bits), 8))
+            cases.append(("av1", bytes.fromhex("003b00000800") + cont + b"\x00" * 30))
     # AV1: mutated wrapped payloads, long read_more chains
     wl = C.dvh().run(["av1wrap " + raw.hex() for raw in bases[:150]])
     for o in wl:
